@@ -4,7 +4,7 @@ from vlib import core
 
 THEOREMS = ['consts', 'ack_conservation', 'ack_fifo', 'ka_outcome', 'no_drop_within_backlog', 'only_acks_for_keepalives',
             'ack_frames_are_acks', 'ack_priority', 'pickReq_returns_to_top', 'drain_writes_all']
-MODULES = ['LLRP.Model.AckLTS', 'LLRP.Model.WriteSide', 'LLRP.Model.WriteMonitor', 'LLRP.Proofs.WriteSide', 'LLRP.Oracle.C07', 'LLRP.Oracle.C05']
+MODULES = ['LLRP.Model.ClientLTS', 'LLRP.Oracle.LTSim', 'LLRP.Model.AckLTS', 'LLRP.Model.WriteSide', 'LLRP.Model.WriteMonitor', 'LLRP.Proofs.WriteSide', 'LLRP.Oracle.C07', 'LLRP.Oracle.C05']
 RULE = ('deterministic environment scripts against the real client over net.Pipe with a peer whose reads can be stalled and resumed (each event waits for its '
         'observable through a ClientLogger: handler returned / header about to be written): keep-alives before, after and between requests '
         '(every position of a 4-request script), ids 0, 1, 2^31, 2^32-1, random, duplicates and ids equal to outstanding request ids; after '
@@ -13,7 +13,8 @@ RULE = ('deterministic environment scripts against the real client over net.Pipe
         'alone takes 5); thorough: 30 random scripts. Compared with the acknowledgement LTS under its deterministic scheduler: frames written '
         '(type:id in order, from the RAW stream), ids dropped (handler panic), ids left queued. Plus: keep-alive as the very first message '
         '(nothing may be written); keep-alives during version negotiation with a slow reader and with 64/16 requests outstanding in bursts of up to 5, '
-        'judged by the Lean monitor checkWrite with mustAck = every keep-alive sent. distinct = distinct request lines; non-trivial = all')
+        'judged by the Lean monitor checkWrite with mustAck = every keep-alive sent. Whole-client scripts judged by the client LTS: keep-alives after a caller gave up while its reply was half-way in; '
+        'keep-alives every 150 ms during application silence longer than the client timeout (400 ms). Device-service leg: the same event language on a real LLRPDevice whose tag-report / reader-event handlers run while EdgeX takes no readings (unbuffered channel, nobody reading). distinct = distinct request lines; non-trivial = all')
 ASSUMPTIONS = [
     'the acknowledgement LTS (LLRP.Model.AckLTS) is hand-written; it is tied to ackHandler/handleOutgoing by the scripted runs',
     'that a queued acknowledgement is eventually written needs a fair Go scheduler and a peer that keeps reading; the model proves enabledness and '
@@ -37,7 +38,22 @@ def _run(tier, seed, only=None):
     path, rc, out = core.run_harness(binp, 'TestVerifC07', tier, seed, extra_env=extra, timeout=900)
     if rc != 0:
         raise RuntimeError('harness run failed rc=%d:\n%s' % (rc, out[-3000:]))
-    return core.read_cases(path)
+    reqs, obs = core.read_cases(path)
+    if only is None or only.startswith('ack-script'):
+        # the device service's handlers run on the read goroutine: the same event language on a real LLRPDevice whose
+        # readings EdgeX does not take
+        binp, out = core.build_harness('driver')
+        if not binp:
+            raise RuntimeError('driver harness build failed:\n' + out[-3000:])
+        path, rc, out = core.run_harness(binp, 'TestVerifC07Driver', tier, seed, pkg='driver', timeout=600)
+        if rc != 0:
+            raise RuntimeError('driver harness run failed rc=%d:\n%s' % (rc, out[-3000:]))
+        r2, o2 = core.read_cases(path)
+        if only is not None:
+            keep = [i for i, r in enumerate(r2) if r == only]
+            r2, o2 = [r2[i] for i in keep], [o2[i] for i in keep]
+        reqs, obs = reqs + r2, obs + o2
+    return reqs, obs
 
 
 def judge(res, reqs, obs, seed):
